@@ -6,6 +6,7 @@ CONSTANTS
   MaxStep = 12
   MaxGen = 1
   Margin = 2
+  Reps = {"str", "bytes", "tuple", "list", "array", "seqview", "sequence"}
   Steps <- StepsFull
 CONSTRAINT StepBound
 CONSTRAINT Walkable
